@@ -56,6 +56,10 @@ CHECKS = {
     'C18': ('M+W', "Termination by induction, no unrolling bound: a loop-carried counter of snapshot()'s retry loop is proved to decrease on every retry path and to force an exit at 0; the "
                    "initial budget is a constant read from the MIR, giving an explicit bound on shared accesses per call; all reader events are loads/fences; stalled-writer RC11 scenarios "
                    "(update cut at any event) admit no stuck state.", NOTE_W, TECH_W),
+    'C19': ('M', "All 2^32 + 1 option values: on the release-profile MIR of main (plain u32 arithmetic wraps there), every path that reaches thread_manager::run passes exactly 1000 x the "
+                 "option as integers (1000 when omitted), and every representable rate reaches run on some path; counterexamples are replayed with the real release binary started in the sandbox.",
+            "Trusted: MIR pretty-printer, the slice executor (data dependences of run()'s first argument plus the branch conditions computed from the option), z3. Stub: Cli::parse() returns an arbitrary "
+            "Option<u32>; statements outside the slice are skipped (a mutable borrow of a slice local makes the check inconclusive). clap's own string parsing is outside.", TECH_M),
 }
 
 NOT_YET = {
